@@ -9,7 +9,7 @@ for id in "$@"; do
   prop=$(python3 -c "import json;print(json.load(open('$d/meta.json'))['property'])")
   if [ -n "$(git -C /repo status --porcelain)" ]; then echo "SEEDRUN $id: /repo is not clean, refusing"; exit 2; fi
   before=$(ls replays 2>/dev/null | sort)
-  git -C /repo apply "$d/patch.diff" || { echo "SEEDRUN $id: patch does not apply"; continue; }
+  git -C /repo apply "/verif/$d/patch.diff" || { echo "SEEDRUN $id: patch does not apply"; continue; }
   start=$(date +%s)
   bin/check "$prop" --tier quick > "$d/check_output.txt" 2>&1
   rc=$?
